@@ -24,26 +24,26 @@ func init() {
 }
 
 type c15Req struct {
-	Idx      int    `json:"idx"`
-	Commit   bool   `json:"commit"`
-	Type     int    `json:"branch_type"`
-	Xid      string `json:"xid"`
-	Branch   int64  `json:"branch_id"`
-	Resource string `json:"resource_id"`
-	AppData  string `json:"app_data"`
-	Scripted bool   `json:"scripted"`
-	Status   int    `json:"script_status"`
-	Err      string `json:"script_err,omitempty"`
-	Hold     bool   `json:"hold,omitempty"`
-	Panic    bool   `json:"panic,omitempty"`
-	Retry    bool   `json:"retried_after_failure,omitempty"`
-	RetryStatus int `json:"retry_status,omitempty"`
-	ForceID  uint32 `json:"same_id_as_pending_client_request,omitempty"`
-	id       uint32
-	retryID  uint32
-	retryCh  chan *wire.Msg
-	sentSeq  int64
-	ch       chan *wire.Msg
+	Idx         int    `json:"idx"`
+	Commit      bool   `json:"commit"`
+	Type        int    `json:"branch_type"`
+	Xid         string `json:"xid"`
+	Branch      int64  `json:"branch_id"`
+	Resource    string `json:"resource_id"`
+	AppData     string `json:"app_data"`
+	Scripted    bool   `json:"scripted"`
+	Status      int    `json:"script_status"`
+	Err         string `json:"script_err,omitempty"`
+	Hold        bool   `json:"hold,omitempty"`
+	Panic       bool   `json:"panic,omitempty"`
+	Retry       bool   `json:"retried_after_failure,omitempty"`
+	RetryStatus int    `json:"retry_status,omitempty"`
+	ForceID     uint32 `json:"same_id_as_pending_client_request,omitempty"`
+	id          uint32
+	retryID     uint32
+	retryCh     chan *wire.Msg
+	sentSeq     int64
+	ch          chan *wire.Msg
 }
 
 type c15Call struct {
